@@ -5,7 +5,7 @@ C12_STUB = {
     "contract resolvers (timeout, success, incoming/outgoing contest, commit sweep, anchor) Launch/Resolve loops": "real, against simulator chain/sweeper stubs",
     "arbitrator log": "real boltArbitratorLog on a bbolt file",
     "HTLC sets of the three commitments": "simulator model: subsets/supersets as the protocol allows, dust per commitment, offered/received, expiries around the current height, preimage knowledge per hash, forwarded vs own",
-    "chain notifier, sweeper, switch (DeliverResolutionMsg), registry, witness beacon, ForceCloseChan, PutFinalHtlcOutcome": "simulator stubs that record every effect (force close invoked, resolvers inserted, resolution messages, final outcomes, sweeps, publishes)",
+    "chain notifier, sweeper, switch (DeliverResolutionMsg), registry, witness beacon, ForceCloseChan, PutFinalHtlcOutcome": "simulator stubs that record every effect (force close invoked, resolvers inserted, resolution messages, final outcomes, sweeps, publishes); an invoice whose preimage the registry holds is returned in state Settled, Open or Accepted (fixed per scenario and hash: a regular invoice is settled the moment its HTLC is accepted, long before the settle reaches the peer)",
     "chain watcher": "not run in this engine (close events are delivered by the simulator as the chain watcher would); commitment recognition is C04/C05",
 }
 C12_ASSUME = [
